@@ -3218,6 +3218,23 @@ static Node *primary(Token **rest, Token *tok) {
       return new_num(0, start);
     if (ty->kind == TY_FLOAT || ty->kind == TY_DOUBLE)
       return new_num(1, start);
+
+    // A struct or union of at most 16 bytes is passed in registers, one
+    // per eightbyte. 16 marks such a type; bit 0 and bit 1 tell whether
+    // the first and the second eightbyte are of class SSE, bit 2 whether
+    // there is a second eightbyte.
+    if ((ty->kind == TY_STRUCT || ty->kind == TY_UNION) &&
+        0 < ty->size && ty->size <= 16) {
+      int klass = 16;
+      if (has_flonum(ty, 0, 8, 0))
+        klass |= 1;
+      if (ty->size > 8) {
+        klass |= 4;
+        if (has_flonum(ty, 8, 16, 0))
+          klass |= 2;
+      }
+      return new_num(klass, start);
+    }
     return new_num(2, start);
   }
 
